@@ -129,6 +129,9 @@ func rev(xs []string) []string {
 // expected computes, flow by flow, what the text demands for the transaction.
 func expected(gs []GFlow, t *Txn, orc Oracle) (runs []expRun, answered bool, free bool) {
 	rootOf := func(f *GFlow, d string) []string {
+		if f == nil { // a flow the configuration does not hold: reported by `add`
+			return nil
+		}
 		r := f.Req.Root
 		if d == "res" {
 			r = f.Res.Root
@@ -179,7 +182,7 @@ func expected(gs []GFlow, t *Txn, orc Oracle) (runs []expRun, answered bool, fre
 	}
 	for _, n := range rev(t.SelRes.User) {
 		f := flowByName(gs, n)
-		if n == scFlow {
+		if f != nil && n == scFlow {
 			cp := f.Res.node(scKey)
 			if cp == nil {
 				// the answering processor has no response connection at all: the text
@@ -243,11 +246,13 @@ func isSubsequence(small, big []Event) bool {
 // processor flow G declares under k.  Several flows may declare a processor
 // under one key, with parameters of their own; the processor that ran shows in
 // its effect: a Filter outputs hit exactly when the transaction carries ITS
-// steering header, a GenerateResponse answers with ITS status and body, and a
-// processor that is not a GenerateResponse answers nothing.  (Processors whose
-// effect does not tell instances apart - MockProcessor, Limiter, the quota
-// processors - are not judged.)
-func instanceHit(cfg *Config, gs []GFlow, events []Event, early []string, headers []string) (dir, dem, obs string, bad bool) {
+// steering header, a GenerateResponse answers with ITS status and body.
+// (Processors whose effect does not tell instances apart - MockProcessor,
+// Limiter, the quota processors - are not judged.  The early response is
+// attributed to the event after which it was appended; an implementation that
+// appends its actions at another moment is not faulted for that: the named
+// processor's early response being among the actions is enough then.)
+func instanceHit(cfg *Config, gs []GFlow, events []Event, early, allEarly []string, headers []string) (dir, dem, obs string, bad bool) {
 	has := map[string]bool{}
 	for _, h := range headers {
 		has[h] = true
@@ -290,6 +295,11 @@ func instanceHit(cfg *Config, gs []GFlow, events []Event, early []string, header
 		if p.Type == tGen && e.Dir == "req" {
 			wantEarly = fmt.Sprintf("%d %s", p.genStatus(), genBody(in.Flow, in.Name))
 		}
+		if p.Type != tGen {
+			ea = "" // only a GenerateResponse is judged by its answer
+		} else if ea == "" && wantEarly != "" && contains(allEarly, wantEarly) {
+			ea = wantEarly
+		}
 		want, _ := predict(p, e.Dir, has)
 		if want.Cond == e.Cond && wantEarly == ea {
 			continue
@@ -330,7 +340,7 @@ func monitor(cfg *Config, gs []GFlow, t *Txn, orc Oracle) (hits []c.Hit, undeter
 	runs, answered, free := expected(gs, t, orc)
 	// (i) the processor a node runs is the one its connection names; everything
 	// after a wrong one (another output, another path) is a consequence
-	if dir, dem, obs, bad := instanceHit(cfg, gs, t.Events, t.Early, t.Headers); bad {
+	if dir, dem, obs, bad := instanceHit(cfg, gs, t.Events, t.Early, t.AllEarly, t.Headers); bad {
 		add("wrong-processor-instance:"+dir, dem, obs)
 		return hits, free
 	}
